@@ -4,10 +4,11 @@ from ..contracts_api import ContractDB
 
 def build_db():
     db = ContractDB()
-    from . import render, html, attrs
+    from . import render, html, attrs, children
     render.register(db)
     html.register(db)
     attrs.register(db)
+    children.register(db)
     return db
 
 
@@ -20,6 +21,21 @@ def extra_lemmas(ctx):
         Lemma("L_escT_space", [], "escT(' ') == ' ' and escA(' ') == ' '", "by decide",
               why="a space is not a key of either escape table (decided on this run's tables)"),
     ]
+    if os.path.exists(os.path.join(os.path.dirname(os.path.dirname(os.path.abspath(__file__))), "lean", "HV", "C14.lean")):
+        out += [
+            Lemma("L_all_nodes", [("l", "ChildList")], "implies(not anyBadAtom(l), allNodesC(mapConvStep(l)))",
+                  "by have h := C14_all_nodes l; cases hb : anyBadAtom l <;> simp_all [implies]", imports=("HV.C14",),
+                  why="after the in-place conversion only tag nodes remain (C14_all_nodes)"),
+            Lemma("L_flat_atoms", [("l", "ChildList")], "allAtomChildren(flatC(l))", "by simpa using flatC_atoms l", imports=("HV.C14b",),
+                  why="the flattening contains no None and no nested list (allAtoms_flatC)"),
+            Lemma("L_nodes_taglist_first", [("l", "NodeList"), ("r", "ChildList")],
+                  "nodes(CCons(CSeq(2, ofNodes(l)), r)) == nappend(l, nodes(r)) and bad(CCons(CSeq(2, ofNodes(l)), r)) == bad(r)",
+                  "by simp [C14_nodes_taglist_child, bad_cons_seq, (C14_nodes_ofNodes l).2]", imports=("HV.C14",), why="a TagList passed as a child is spliced unchanged"),
+            Lemma("L_nodes_taglist_last", [("l", "NodeList"), ("r", "ChildList")],
+                  "nodes(cappend(r, CCons(CSeq(2, ofNodes(l)), CNil()))) == nappend(nodes(r), l) and bad(cappend(r, CCons(CSeq(2, ofNodes(l)), CNil()))) == bad(r)",
+                  "by\n  have hn : nodes .CNil = .NNil := by simp [nodes, C14_flat_nil, mapConvStep_nil, toNodes_nil]\n  have hb : bad .CNil = false := by simp [bad, C14_flat_nil, anyBadAtom_nil]\n  simp [C14_nodes_append, C14_bad_append, C14_nodes_taglist_child, bad_cons_seq, (C14_nodes_ofNodes l).2, nappend_nil, hn, hb]", imports=("HV.C14",),
+                  why="a TagList passed as the last child is spliced unchanged"),
+        ]
     if not have_attrfacts:
         return out
     return out + [
